@@ -151,7 +151,7 @@ def run(chk):
     work.mkdir(parents=True, exist_ok=True)
     nwords = 120 if tier == "quick" else 1500
     ngen = 150 if tier == "quick" else 3000
-    big_limit = 30000 if tier == "quick" else 10 ** 9
+    big_limit = 10 ** 9   # all shipped dictionaries in both tiers (the 98 k pattern Hungarian one exposed 16-bit state numbers)
     dicts = []
     skipped = []
     for p in sorted((REPO / "tables").glob("*.dic")):
@@ -199,6 +199,8 @@ def run(chk):
             mf = m.split()
             if isinstance(c, tuple):
                 cres = c
+            elif c.startswith("W HANG"):
+                cres = ("HANG", c.split()[2:])
             else:
                 head, _, tail = c.partition("|")
                 cres = (head.split()[1], tail.split())
@@ -225,7 +227,11 @@ def run(chk):
             total_bad += 1
             replay = dict(kind="hyphenate", table_list=tl, dictionary_text=text, dictionary=name,
                           base_table=bt.read_text(), word=w, model=m, impl=c if not isinstance(c, tuple) else list(c))
-            if isinstance(c, tuple) and "hyphenateWord" in c[1]:
+            if cres[0] == "HANG":
+                chk.violation("hang:" + ("shipped:" + name if text is None else "generated"),
+                              "lou_hyphenate does not return (step budget exceeded, %s) on %s with %s; the model gives %s"
+                              % (c, w, name, m), replay)
+            elif isinstance(c, tuple) and "hyphenateWord" in c[1]:
                 chk.violation("hyphens-out-of-bounds", "hyphenateWord indexes hyphens[] out of bounds: model low-clamp=%s impl=%s"
                               % (oob, c), replay)
             else:
